@@ -9,7 +9,7 @@ from ..model import AnalysisError, norm
 from ..mutants import Mut
 from ..rules.defuse import DefUse
 from ..rules.exc import ExcEngine
-from ..rules.util import callee_name, cfg_of, nodes_where
+from ..rules.util import callee_name, cfg_of, node_exprs, nodes_where
 from ..tables import C16_FOCUS_EXEMPT, C16_ORDER_AFTER
 
 EXPLANATION = (
@@ -159,6 +159,44 @@ def rule_order(ctx: Ctx) -> RuleResult:
         others = [c for c in fo.own_nodes() if isinstance(c, ast.Call) and isinstance(c.func, ast.Attribute) and c.func.attr in wrapped and c is not call and c not in passthrough and ((isinstance(c.func.value, ast.Name) and c.func.value.id == fo.self_name) or c in _super_calls(fo))]
         for o in others:
             rr.add(finding("ORDER", fo, o, f"`{norm(o, 50)}` is a second _call_modified-wrapped call inside {name}(): the modified callback fires more than once per call", construct=f"{name}: second wrapped call {norm(o, 40)}"))
+    return rr
+
+
+def rule_index_passed_as_given(ctx: Ctx) -> RuleResult:
+    """'raise the same errors': the built-in list range-checks an integer index (`del l[9]` -> IndexError) and never a
+    slice.  The overrides build `slice(i, i + 1 or None)` from an integer index to compute the new focus; that slice
+    is for the focus arithmetic only - what goes to super().<op>() is the caller's index itself (or its
+    operator.index() coercion).  If the slice is passed on, an out-of-range integer deletes / assigns nothing,
+    returns normally and fires the modified callback (seed C16-r8a).  Every definition of the index parameter that
+    reaches the super() call is the parameter itself or operator.index(<parameter>)."""
+    from ..rules.defuse import DefUse
+
+    p = ctx.p
+    rr = RuleResult("KIND", "C16.13", "the index an override hands to super() is the caller's own index (or its operator.index() coercion), not a slice built from it", floor=3)
+    mfl = p.cls(f"{ML}.MonitoredFocusList")
+    for name in ("__delitem__", "__setitem__", "pop", "insert"):
+        fo = mfl.methods.get(name)
+        if fo is None or len(fo.params) < 2:
+            continue
+        prm = fo.params[1]
+        sup = [c for c in _super_calls(fo) if c.func.attr == name and c.args and isinstance(c.args[0], ast.Name) and c.args[0].id == prm]
+        if not sup:
+            continue
+        du = DefUse(fo)
+        for c in sup:
+            cn = next((n for n in du.cfg.nodes for e in node_exprs(n) for x in ast.walk(e) if x is c), None)
+            if cn is None:
+                continue
+            bad = []
+            for val, how, dn in du.reaching(prm, cn):
+                if val is None or not isinstance(val, ast.AST):
+                    continue  # the parameter as given
+                if isinstance(val, ast.Call) and ast.unparse(val.func) in ("operator.index", "index") and len(val.args) == 1 and isinstance(val.args[0], ast.Name) and val.args[0].id == prm:
+                    continue
+                bad.append(val)
+            rr.inst(f"MonitoredFocusList.{name}", True, {"override": name, "index_parameter": prm, "redefinitions_reaching_super": [norm(b, 40) for b in bad]})
+            for b in bad:
+                rr.add(finding("KIND", fo, b, f"`{prm} = {norm(b, 50)}` reaches `{norm(c, 50)}`: the built-in is no longer given the caller's index but a value built from it - a slice is never range-checked, so an out-of-range integer index does nothing instead of raising IndexError, and the modified callback fires for a call that must fail", construct=f"{name}: index replaced before the list call"))
     return rr
 
 
@@ -725,7 +763,7 @@ def rule_replaced_range(ctx: Ctx) -> RuleResult:
 
 
 def run(ctx: Ctx):
-    return [rule_cover(ctx), rule_order(ctx), rule_wrapper(ctx), rule_focus_setter(ctx), rule_slice_triple(ctx), rule_slice_norm(ctx), rule_norm_simultaneous(ctx), rule_index_slice_idiom(ctx), rule_focus_writers(ctx), rule_list_semantics(ctx), rule_index_coercion(ctx), rule_replaced_range(ctx)]
+    return [rule_cover(ctx), rule_order(ctx), rule_wrapper(ctx), rule_focus_setter(ctx), rule_slice_triple(ctx), rule_slice_norm(ctx), rule_norm_simultaneous(ctx), rule_index_slice_idiom(ctx), rule_focus_writers(ctx), rule_list_semantics(ctx), rule_index_coercion(ctx), rule_replaced_range(ctx), rule_index_passed_as_given(ctx)]
 
 
 _F = "urwid/widget/monitored_list.py"
